@@ -1625,6 +1625,9 @@ class zip(Stream):
         # Override method to handle removal of buffer for stream
         self.buffers.pop(upstream)
         super(zip, self)._remove_upstream(upstream)
+        # the remaining inputs may already hold complete tuples
+        while self.buffers and all(self.buffers.values()):
+            self._emit_tuple()
 
     def pack_literals(self, tup):
         """ Fill buffers for literals whenever we empty them """
@@ -1645,19 +1648,22 @@ class zip(Stream):
         L = self.buffers[who]  # get buffer for stream
         L.append((x, metadata))
         if len(L) == 1 and all(self.buffers.values()):
-            vals = [self.buffers[up][0] for up in self.upstreams]
-            tup, md = __builtins__['zip'](*vals)
-            for buf in self.buffers.values():
-                buf.popleft()
-            self.condition.notify_all()
-            if self.literals:
-                tup = self.pack_literals(tup)
-            md = [m for ml in md for m in ml]
-            ret = self._emit(tup, md)
-            self._release_refs(md)
-            return ret
+            return self._emit_tuple()
         elif len(L) > self.maxsize:
             return self.condition.wait()
+
+    def _emit_tuple(self):
+        vals = [self.buffers[up][0] for up in self.upstreams]
+        tup, md = __builtins__['zip'](*vals)
+        for buf in self.buffers.values():
+            buf.popleft()
+        self.condition.notify_all()
+        if self.literals:
+            tup = self.pack_literals(tup)
+        md = [m for ml in md for m in ml]
+        ret = self._emit(tup, md)
+        self._release_refs(md)
+        return ret
 
 
 @Stream.register_api()
